@@ -455,3 +455,32 @@ def c12(event, phase, workflow, body_fails_later, x):
     if out != want:
         return "%s: resubmission returned %r, the correct result is %r (bodies re-executed: %d)" % (desc, out, want, second)
     return None
+
+
+# ------------------------------------------------------------------ C19
+def c19(kind, val, base):
+    """body mutates its input in place; changed => error reported, unchanged => no error; identity = inputs as submitted"""
+    import copy
+    E.reset()
+    R.clear()
+    data0 = {0: [base, 2], 1: [base, 2], 2: {"k": base}, 3: {base, 2}, 4: D.Box(base), 5: [base, 2], 6: [base, 2], 7: [2, base]}[kind]
+    before = copy.deepcopy(data0.v if kind == 4 else data0)
+    d = E.scratch()
+    try:
+        t = D.Mutator(data=data0, kind=kind, val=val)
+        cs = t._checksum
+        out, err = call(t, cache_root=d)
+        dirs = job_dirs(d)
+    finally:
+        E.cleanup(d)
+    T.reach()
+    after = data0.v if kind == 4 else data0
+    changed = after != before
+    desc = "mutation kind %d val %d on %r" % (kind, val, before)
+    if changed and err is None:
+        return "%s: the input was changed to %r during execution and no error was reported" % (desc, after)
+    if not changed and err is not None:
+        return "%s: input unchanged but the call failed: %r" % (desc, err)
+    if cs not in dirs:
+        return "%s: result stored under %s, the identity of the submitted inputs is %s" % (desc, dirs, cs)
+    return None
